@@ -29,7 +29,8 @@ RULE = ("Cases are (author sum, student sum, input_positions subset, samples, to
         "replaced by int(infty_val), terms by an independent tree evaluator (math.* on reals, cmath only on complex "
         "values); verdict correct iff |S_author-S_student| <= tol at every sample. Non-trivial = the student's text "
         "differs from the author's and the sums are equal, or the sums differ by between 100 x tol and 10 %, or the "
-        "parity filter removes at least one term, or (errors) an error input; distinct by spec.")
+        "parity filter removes at least one term, or (errors) an error input; distinct by spec."
+        " Every graded sum is preceded by a companion problem over the same summand texts with function calls in its limits; the ranges part grades each limit pair by three variable-free graders differing in even_odd only, in one process.")
 ASSUMPTIONS = [
     "floating point: a case is judged only when |diff - tol| > 1e-9*max(1, largest intermediate magnitude) at the "
     "deciding samples (otherwise discarded), except (a) author and student sums that are the same computation "
